@@ -151,3 +151,13 @@ PROPS["C08"] = {
     "level_text": "Machine-checked Lean 4 theorems: finishCheckOk/Err_failures, pingFailed/Succeeded_failures and failures_count (over any history the counter is the number of failures since the last success, saturating), finishCheckOk/Err_lastUpdate + talkedToOmaha_iff + ping lemmas (last-contact moves exactly on success, unparseable body, unusable plan, successful ping), closeCheck_trace (every check ends ScheduleChange, ProtocolStateChange, result, three context writes, one write per app, commit), persist_commit_crash_load (after persist + commit + crash, loadCtx returns exactly the context's durable view at microsecond precision), commit_get / crash_commit_get / committed_only_by_commit / failed_op_changes_nothing (only a successful commit changes what survives a crash); tied to the code by the per-unit differential run incl. rebuilds.",
     "level_note": "Trusted: Lean kernel; the hand-written state-machine and storage model; harness and diff. The every-prefix form of crash consistency is carried by committed_only_by_commit + persist_commit_crash_load per commit site rather than as one theorem over whole traces.",
 }
+
+PROPS["C04"] = {
+    "lean_modules": ["Omaha.Props.C04"],
+    "streams": sm_stream([r"E state", r"E insterr", r"E response", r"E result", [r"E sched", []], [r"E proto", []]]),
+    "rule": SM_RULE + "; projection: the event stream as the observer sees it — every state change, installer-error event, announced server response (full decoded dump) and check result (apps, order, per-app action) in full, and the positions of the schedule / protocol-state events",
+    "trusted_extra": SM_TRUSTED,
+    "assumptions": ["when the policy defers or denies, every app of the response is listed with that decision (the code applies the decision to the response as a whole); per-app alignment is stated under the installer's contract of one result per offered app"],
+    "level_text": "Machine-checked Lean 4 theorems, for every world and environment: performUpdateCheck_marks (the announcements of a check are CheckingForUpdates followed by exactly pathMarks of the path taken, where the path is a function of the request-phase outcome, the parse result and the plan / policy / installer answers) with the iff-clauses error_iff, noUpdate_iff, deferred_iff, installing_iff, installationError_iff, response_iff, insterr_per_failed + failedMessages_spec read off it; attemptLoop_marks (ErrorCheckingForUpdate exactly when the attempt loop ends without a response, over all retry sequences); handleOutcome_ok_iff (a body reaches the parser only from an authenticated 2xx exchange); startUpdateCheck_evs (first event CheckingForUpdates, last three = final schedule, final protocol state, exactly one result; nothing in between is a result / schedule / Idle / WaitingForReboot); performUpdateCheck_result with alignResults_spec, installResponses_ids/actions, makeAppResponses_ids (the result lists the response's apps in order, offered apps get the installer's results in order, the rest NoUpdate; reboot pending iff no app failed and the policy says so); afterCheck_marks / afterCheck_waiting (Idle follows every check, WaitingForReboot in between iff a reboot is pending, nothing else announced during the reboot wait). Tied to state_machine.rs by the per-unit differential run of the real StateMachine.",
+    "level_note": "Trusted: Lean kernel; the hand-written state-machine model; harness (scripted environment, executor) and diff. Histories are covered because every unit of the correspondence starts from the state the real machine reached and the theorems hold for every start state.",
+}
